@@ -70,7 +70,7 @@ func vecBatch(rng *rand.Rand, class string, prefix string) *model.Batch {
 
 // C14 — vector search: true scores, live docs, exact top-k when exact.
 func c14(c *Ctx) {
-	n := c.N(800, 10000)
+	n := c.N(800, 80000)
 	tallEvery := c.N(50, 60)
 	for i := 0; i < n; i++ {
 		if !c.Mine(i) {
@@ -463,7 +463,7 @@ func c16run(c *Ctx, id, path, field string, vm *model.VecModel, m *model.Seg, se
 // C16 part B: concurrent searchers with the expiry monitor running.
 func c16stress(c *Ctx) {
 	zap.VerifSetVecMonitorFreq(time.Millisecond)
-	rounds := c.N(60, 240)
+	rounds := c.N(60, 1500)
 	for i := 0; i < rounds; i++ {
 		if !c.Mine(i) {
 			continue
@@ -627,7 +627,7 @@ func c16stress(c *Ctx) {
 var c19ops = []string{"IndexFactory", "SetDirectMap", "Train", "AddWithIDs", "WriteIndexIntoBuffer", "ReadIndexFromBuffer", "ReconstructBatch"}
 
 func c19(c *Ctx) {
-	n := c.N(60, 600)
+	n := c.N(60, 6000)
 	for i := 0; i < n; i++ {
 		if !c.Mine(i) {
 			continue
@@ -777,6 +777,9 @@ func c19merge(c *Ctx, id string, rng *rand.Rand, bs []*model.Batch) {
 	defer os.RemoveAll(outDir)
 	faiss.SetFaultPlan(nil)
 	faiss.MonitorReset()
+	// small output buffers: data has reached the file when the engine fails
+	zx.SetMergeBuffer([]int{1 << 20, 64, 4096}[rng.Intn(3)])
+	defer zx.SetMergeBuffer(1 << 20)
 	var calls map[string]int
 	guard(c.R, id+" fault-free", func() {
 		_, _, err := zx.Merge(ins, bm, path, nil, nil)
